@@ -35,7 +35,7 @@ func init() {
 		Word32: true,
 		Level:  "exploration",
 		Rule: "E1 bounded-exhaustive enumeration, per width n in {1,2,4,8}: (split) every string of length ≤2 over all 256 byte values and of length ≤L over {00,01,7f,80,ff,a5,5a,'a'}: FromStr length and every word, Get at every index, ToStr∘FromStr; " +
-			"(split, zero runs) FromStr / Get / ToStr(FromStr) on strings of 9..33 bytes in which every run [i, j) of bytes is 0x00; (pack) ToStr on every list of in-range words up to a width-dependent length (every partial-last-byte shape), and on one patterned list of EVERY length up to 2200 / 1100 / 600 / 300 words (widths 1 / 2 / 4 / 8) and of every threshold length up to 2^16 words with every partial-last-byte shape next to it; (diff) FirstDiff on every ordered pair of strings of length ≤D over 6 bytes and of length ≤3 over {c3,a9,a8,'a'} and {e6,97,a5,a6} (well-formed 2- and 3-byte UTF-8 sequences differing in a continuation byte) × every from in [0, words+2] × every end in [-1, words+2]; (diff, far windows) the same pairs with from and/or end far beyond both strings: 2^31, 2^32, 2^60, 2^61, 2^62, 3·2^61 (each ±1), MaxInt-1, MaxInt - every from in [0, words+2] ∪ far × every far end, and every far from × every end in [-1, words+2]; (diff, long) FirstDiff on every ordered pair of 48 strings of 8..19 bytes (4 stem variants × 3 tails) and on single-byte flips of bases of EVERY length 1..40 at every byte position × every from × 7 ends; (big) strings of EVERY length 2..600 bytes and of every threshold length up to 2^16 (thorough 2^20) bytes: FromStr/ToStr/Get and FirstDiff against copies with one flipped byte; (lists) ToStrs on every list of ≤3 word lists over every partial-last-byte shape (lengths 0..2·(8/n)+1: elements that are not whole bytes), and on every list of ≤3 PREFIXES OF ONE word list (elements sharing memory: the same list twice, a list and its prefix); FromStrs/ToStrs element-wise (and the FromStrs elements once more after appending a byte to each: results must not alias each other) on every list of ≤3 strings over 4 strings and every ordered list of 2..3 strings sharing an 8- or 9-byte prefix with tails over {00,'A','B'}, and on generated lists of every threshold size (round numbers ±1) from 1000 to 70000 strings. " +
+			"(split, zero runs) FromStr / Get / ToStr(FromStr) on strings of 9..33 bytes in which every run [i, j) of bytes is 0x00; (pack) ToStr on every list of in-range words up to a width-dependent length (every partial-last-byte shape), and on one patterned list of EVERY length up to 2200 / 1100 / 600 / 300 words (widths 1 / 2 / 4 / 8) and of every threshold length up to 2^16 words with every partial-last-byte shape next to it; (diff) FirstDiff on every ordered pair of strings of length ≤D over 6 bytes and of length ≤3 over {c3,a9,a8,'a'} and {e6,97,a5,a6} (well-formed 2- and 3-byte UTF-8 sequences differing in a continuation byte) × every from in [0, words+2] × every end in [-1, words+2]; (diff, far windows) the same pairs with from and/or end far beyond both strings: 2^31, 2^32, 2^60, 2^61, 2^62, 3·2^61 (each ±1), MaxInt-1, MaxInt - every from in [0, words+2] ∪ far × every far end, and every far from × every end in [-1, words+2]; (diff, long) FirstDiff on every ordered pair of 48 strings of 8..19 bytes (4 stem variants × 3 tails) and on single-byte flips of bases of EVERY length 1..40 at every byte position, and on DOUBLE flips (the same mask in two bytes 1, 4, 8 or 16 apart) of bases of 16..40 bytes × every from × 7 ends; (big) strings of EVERY length 2..600 bytes and of every threshold length up to 2^16 (thorough 2^20) bytes: FromStr/ToStr/Get and FirstDiff against copies with one flipped byte; (lists) ToStrs on every list of ≤3 word lists over every partial-last-byte shape (lengths 0..2·(8/n)+1: elements that are not whole bytes), and on every list of ≤3 PREFIXES OF ONE word list (elements sharing memory: the same list twice, a list and its prefix); FromStrs/ToStrs element-wise (and the FromStrs elements once more after appending a byte to each: results must not alias each other) on every list of ≤3 strings over 4 strings and every ordered list of 2..3 strings sharing an 8- or 9-byte prefix with tails over {00,'A','B'}, and on generated lists of every threshold size (round numbers ±1) from 1000 to 70000 strings. " +
 			"Oracle: the string's '0'/'1' rendering cut into n-bit groups. A case is one call; non-trivial when the string/list is non-empty.",
 		Assumptions: []string{"from < 0 and end < -1 are outside the statement and not called; long strings over the full byte alphabet are not enumerated"},
 		Run:         c08Run,
@@ -467,6 +467,22 @@ func c08Run(c *mc.Ctx) {
 				fl := []byte(base)
 				fl[p] ^= m
 				pairs = append(pairs, pair{base, string(fl)}, pair{string(fl), base})
+			}
+		}
+	}
+	// DOUBLE flips: the same mask flipped in two bytes d = 1, 4, 8 or 16 apart (two correlated differences: a
+	// record repeated every 8 bytes, the same case flip twice) in bases of 16, 17, 24, 33 and 40 bytes, at
+	// every position of the first flip
+	for _, n := range []int{16, 17, 24, 33, 40} {
+		base := c09Stem(n)
+		for _, d := range []int{1, 4, 8, 16} {
+			for p := 0; p+d < n; p++ {
+				for _, m := range []byte{0x80, 0x01} {
+					fl := []byte(base)
+					fl[p] ^= m
+					fl[p+d] ^= m
+					pairs = append(pairs, pair{base, string(fl)})
+				}
 			}
 		}
 	}
